@@ -278,8 +278,20 @@ extern "C" int format()
   MStr ma; symStr(ma, VF_L);
   char arg[8]; for(unsigned i = 0; i < ma.n; ++i) arg[i] = (char)ma.v[i]; arg[ma.n] = 0;
   int num = (int)vf_u32();
-  unsigned which = vf_pick(3);
-  if(which == 0)
+  unsigned which = vf_pick(4);
+  if(which == 3)
+  {
+    // output lengths around the capacity of the first formatting attempt (200 | 3 = 203) and of a reserved buffer
+    unsigned L = 199 + vf_pick(7); bool reserved = vf_pick(2);
+    char big[320]; unsigned LL = reserved ? L + 48 : L; for(unsigned i = 0; i < LL; ++i) big[i] = 'A' + (char)(i % 23); big[LL] = 0;
+    String s; if(reserved) s.reserve(250);
+    int r = s.printf("%s", big);
+    vf_assert(r == (int)LL && s.length() == LL, "printf (capacity boundary): length");
+    const char* p = s;
+    vf_assert(p[LL] == 0, "printf (capacity boundary): terminated at length()");
+    vf_assert(p[LL - 1] == big[LL - 1] && p[0] == 'A', "printf (capacity boundary): last formatted character present");
+  }
+  else if(which == 0)
   {
     String s("old");
     int r = s.printf("%s-%d", arg, num);
